@@ -212,7 +212,10 @@ def validate(traces, spec="TraceRelation"):
             if m:
                 rej[int(m.group(1))] = (int(m.group(2)), m.group(3))
         ok = r.returncode == 0 and "Error:" not in r.stdout
-        return acc, rej, (None if ok else r.stdout[-1500:])
+        if ok:
+            return acc, rej, None
+        at = r.stdout.find("Error:")
+        return acc, rej, (r.stdout[at:at + 1500] if at >= 0 else r.stdout[-1500:])
     finally:
         import shutil
         shutil.rmtree(d, ignore_errors=True)
